@@ -14,3 +14,21 @@ Theorem C18_refused_message_writes_nothing_partial :
   no_state_writes (h_tr h).
 Proof. exact refused_message_writes_nothing. Qed.
 Print Assumptions C18_refused_message_writes_nothing_partial.
+
+(* ---- the airgapped machine (operation files) ---- *)
+Require Import Air.Reject Air.RejectProofs.
+
+(* an operation file the machine rejects changes neither its DKG instances nor its log ... *)
+Theorem C18_rejected_operation_changes_nothing : forall m o m', aprocess m o = (m', ARejected) -> m' = m.
+Proof. exact rejected_changes_nothing. Qed.
+(* ... so every operation fed afterwards is answered as if it had never been fed *)
+Theorem C18_rejected_then_rest :
+  forall m o rest, snd (aprocess m o) = ARejected ->
+  afeed m (o :: rest) = (fst (afeed m rest), ARejected :: snd (afeed m rest)).
+Proof. exact rejected_then_rest. Qed.
+(* a malformed first operation of a round is rejected (there is nobody to address an error to) *)
+Theorem C18_malformed_commits_rejected :
+  forall m r, has_inst m r = false ->
+  snd (aprocess m {| ao_kind := KCommits; ao_round := r; ao_wellformed := false |}) = ARejected.
+Proof. exact malformed_commits_rejected. Qed.
+Print Assumptions C18_rejected_then_rest.
